@@ -154,10 +154,15 @@ theorem exec_step (w : World) (env : Env) (s : Nat) (f : Funds) (m : ExecMsg) (e
     have hgd : gdir e1 tmp.vamm tmp.trader tmp.side = gdir w.engine v s side := by
       unfold gdir; rw [hrp, ts]
     have hk := EngineMoney.getPosition_key env w.engine v s side
-    rcases hcase with ⟨N, hm, hdir⟩ | ⟨N, hm, hdir, pn, u, hpnl, hgt⟩ | ⟨hm, hdir⟩
-    · refine Or.inr ⟨[], _, hm, AllCE_nil, hB1, Or.inr ⟨tmp, htmp, Or.inl ⟨N, b, ?_, Or.inr ?_⟩⟩⟩
+    rcases hcase with ⟨N, hm, hdir⟩ | ⟨N, hm, _, hdir, pn, u, hpnl, hgt⟩ | ⟨hm, _, hdir⟩
+    · refine Or.inr ⟨[], _, hm, AllCE_nil, hB1, Or.inr ⟨tmp, htmp, Or.inl ⟨N, b, ?_, ?_⟩⟩⟩
       · rw [tv, ts]
-      · rw [hgd, ts, ← getPosition_direction env]; exact hdir
+      · rcases hdir with hz | hdir
+        · left
+          rw [hrp, ← getPosition_size env w.engine v s side]
+          exact (C19.isZero_iff _).1 hz
+        · right
+          rw [hgd, ts, ← getPosition_direction env]; exact hdir
     · rw [hk.1] at hm
       refine Or.inr ⟨[], _, hm, AllCE_nil, hB1, Or.inr ⟨tmp, htmp, Or.inr (Or.inl ⟨N, b, ?_, ?_, ?_⟩)⟩⟩
       · rw [tv, ts]
